@@ -77,6 +77,7 @@ var libSigs = map[string]libSig{
 	"strings.Contains":  {[]string{"Str", "Str"}, "Bool"},
 	"strings.Index":     {[]string{"Str", "Str"}, "Int"},
 	"strings.Split":     {[]string{"Str", "Str"}, "L_Str"},
+	"strings.SplitN":    {[]string{"Str", "Str", "Int"}, "L_Str"},
 	"strings.ToLower":   {[]string{"Str"}, "Str"},
 	"strconv.Atoi#0":    {[]string{"Str"}, "Int"},
 	"strconv.Atoi#1":    {[]string{"Str"}, "Err"},
@@ -157,10 +158,10 @@ var libAxioms = map[string]libAx{
 		"(assert (forall ((s Str) (i Int)) (! (=> (and (<= 0 i) (< i (len_L_Str (L_strings_Fields s)))) (> (str_len (select (arr_L_Str (L_strings_Fields s)) i)) 0)) :pattern ((select (arr_L_Str (L_strings_Fields s)) i)))))",
 	}},
 	"strings.Index": {nil, []string{
-		"(assert (forall ((s Str) (p Str)) (! (and (<= (- 1) (L_strings_Index s p)) (<= (+ (L_strings_Index s p) (str_len p)) (str_len s))) :pattern ((L_strings_Index s p)))))",
+		"(assert (forall ((s Str) (p Str)) (! (or (= (L_strings_Index s p) (- 1)) (and (<= 0 (L_strings_Index s p)) (<= (+ (L_strings_Index s p) (str_len p)) (str_len s)))) :pattern ((L_strings_Index s p)))))",
 	}},
 	"strings.LastIndex": {nil, []string{
-		"(assert (forall ((s Str) (p Str)) (! (and (<= (- 1) (L_strings_LastIndex s p)) (<= (+ (L_strings_LastIndex s p) (str_len p)) (str_len s))) :pattern ((L_strings_LastIndex s p)))))",
+		"(assert (forall ((s Str) (p Str)) (! (or (= (L_strings_LastIndex s p) (- 1)) (and (<= 0 (L_strings_LastIndex s p)) (<= (+ (L_strings_LastIndex s p) (str_len p)) (str_len s)))) :pattern ((L_strings_LastIndex s p)))))",
 	}},
 	"strings.Compare": {nil, []string{
 		"(assert (forall ((a Str) (b Str)) (! (= (L_strings_Compare a b) (ite (= a b) 0 (ite (str_lt a b) (- 1) 1))) :pattern ((L_strings_Compare a b)))))",
@@ -304,6 +305,12 @@ func (e *Exec) callLib(x *ssa.Call, f *ssa.Function) {
 			sorts = append(sorts, e.g.sortOf(v.lv.cell.typ))
 			continue
 		}
+		if v.fn != nil && len(v.clo) == 0 {
+			// a function literal without captured variables: an opaque constant
+			args = append(args, e.fnConst(v.fn))
+			sorts = append(sorts, "Fn")
+			continue
+		}
 		if v.fn != nil || v.t == "" && len(v.tup) == 0 && v.lv == nil && v.cell == nil {
 			e.unsupported("function-valued argument to " + name)
 			return
@@ -445,6 +452,23 @@ type dynCallInfo struct {
 	reach   Term
 }
 
+// sortFunc models slices.SortFunc(s, cmp): the elements of s are permuted in place.  Under value semantics the
+// SSA name of s is rebound to a slice of the same length whose contents are unknown here; the C07 driver adds
+// the sorted-permutation contract (which requires cmp to be a total preorder).
 func (e *Exec) sortFunc(x *ssa.Call) {
-	e.unsupported("slices.SortFunc (handled by property-specific contract)")
+	arg := x.Call.Args[0]
+	old := e.term(arg)
+	s := e.g.sortOf(arg.Type())
+	nv := e.havoc("sorted", s, false)
+	e.assume(implies(e.reach[e.curBlock], fmt.Sprintf("(and (= (len_%s %s) (len_%s %s)) (= (off_%s %s) 0) (= (nil_%s %s) (nil_%s %s)))", s, nv, s, old, s, nv, s, nv, s, old)))
+	e.vals[arg] = val{t: nv}
+	e.root().sorts = append(e.root().sorts, sortEvent{before: old, after: nv, cmp: x.Call.Args[1], reach: e.reach[e.curBlock], sort_: s})
+	e.setVal(x, val{})
+}
+
+type sortEvent struct {
+	before, after Term
+	cmp           ssa.Value
+	reach         Term
+	sort_         string
 }
